@@ -9,6 +9,7 @@ func ctlReset(p *planSpec)  {}
 func ctlLog() any           { return nil }
 func ctlCount() int         { return 0 }
 func ctlCloseLeaked()       {}
+func ctlYield()             {}
 func ctlIsCrash(v any) bool { return false }
 func ctlRunScheduled(fns []func(), schedule []int) ([]int, error) {
 	for _, f := range fns {
